@@ -438,7 +438,7 @@ CONVERSIONS = ("sequence_pos_to_transcript", "sequence_pos_to_cds", "cds_pos_to_
                "transcript_pos_to_sequence")
 
 
-def conversions_on_chunk(strand):
+def conversions_on_chunk(strand, chunk_strand=PLUS):
     """coordinate conversions are chromosome-level answers: a coding transcript built on a chunk (window cutting it anywhere) converts every
     position exactly like its parent-less twin (same value or same refusal). Realised: the solver closes the offset space, positions are looped natively"""
 
@@ -456,7 +456,7 @@ def conversions_on_chunk(strand):
             cds = [(ex[0][0] + co, ex[0][1]), (ex[1][0], ex[1][0] + ce)]
             mk = lambda par: TranscriptInterval([e[0] for e in ex], [e[1] for e in ex], strand, [c[0] for c in cds], [c[1] for c in cds],  # noqa: E731
                                                 [CDSFrame.ZERO, CDSFrame.ZERO], guid=43, parent_or_seq_chunk_parent=par)
-            whole, chunk = mk(None), mk(chunk_parent(w, L))
+            whole, chunk = mk(None), mk(chunk_parent(w, L, strand=chunk_strand))
             for p in list(range(0, l0 + l1 + 2)) + list(range(s0 - 1, ex[1][1] + 2)):
                 for name in CONVERSIONS:
                     if outcome(getattr(chunk, name), p) != outcome(getattr(whole, name), p):
@@ -767,6 +767,14 @@ def obligations(tier):
                        lambda s0, w, co, ce: 100 <= w and w <= 102 and w - 16 <= s0 and s0 <= w + L + 2 and (co == 0 or co == 2 or co == 4) and (ce == 1 or ce == 3 or ce == 6),
                        budget=600, cost=60,
                        desc="coding transcript on a chunk whose window may cut it anywhere (or miss it): sequence/transcript/CDS/amino-acid position conversions give "
+                            "the same value or the same refusal as on the parent-less twin, for every position (position conversions are chromosome-level answers)",
+                       bounds="2 exons (5+6 nt, 3-nt intron), CDS start offset 0/2/4, CDS end offset 1/3/6, window start 100..102, every transcript offset touching "
+                              "or missing the window, chunk length %d (realised)" % L,
+                       examples=[dict(s0=98, w=100, co=2, ce=3), dict(s0=110, w=101, co=0, ce=6)]))
+        out.append(Obl("conversions_on_minus_chunk_%s" % sn, conversions_on_chunk(strand, MINUS), dict(s0=int, w=int, co=int, ce=int),
+                       lambda s0, w, co, ce: 100 <= w and w <= 102 and w - 16 <= s0 and s0 <= w + L + 2 and (co == 0 or co == 2 or co == 4) and (ce == 1 or ce == 3 or ce == 6),
+                       budget=600, cost=60,
+                       desc="(chunk placed on the MINUS strand) coding transcript on a chunk whose window may cut it anywhere (or miss it): sequence/transcript/CDS/amino-acid position conversions give "
                             "the same value or the same refusal as on the parent-less twin, for every position (position conversions are chromosome-level answers)",
                        bounds="2 exons (5+6 nt, 3-nt intron), CDS start offset 0/2/4, CDS end offset 1/3/6, window start 100..102, every transcript offset touching "
                               "or missing the window, chunk length %d (realised)" % L,
